@@ -78,6 +78,9 @@ type c07Expected struct {
 
 // c07Bits: set of bases an IUPAC letter stands for (A=1 C=2 G=4 T=8); 0 for a gap; -1 otherwise.
 func c07Bits(b byte) int {
+	if 'a' <= b && b <= 'z' {
+		b -= 'a' - 'A' // a residue is the same nucleotide in lower case (soft-masked regions)
+	}
 	switch b {
 	case '-':
 		return 0
